@@ -77,12 +77,14 @@ pub struct Harness {
     pub pages: usize,
     pub threads: Vec<Vec<Op>>,
     pub bound: Option<u32>,
+    /// pages marked (sequentially) before the threads start
+    pub init: Vec<usize>,
 }
 
 impl Harness {
     fn to_json(&self) -> Value {
         json!({
-            "name": self.name, "pages": self.pages, "page_size": 1,
+            "name": self.name, "pages": self.pages, "page_size": 1, "premarked": self.init,
             "threads": self.threads.iter().map(|t| t.iter().map(|o| o.to_json()).collect::<Vec<_>>()).collect::<Vec<_>>(),
         })
     }
@@ -98,6 +100,7 @@ impl Harness {
             pages: v.get("pages")?.as_u64()? as usize,
             threads,
             bound: None,
+            init: v.get("premarked").and_then(|a| a.as_array()).map(|a| a.iter().filter_map(|x| x.as_u64().map(|x| x as usize)).collect()).unwrap_or_default(),
         })
     }
     fn needs_region(&self) -> bool {
@@ -174,6 +177,9 @@ fn execute(h: &Harness, ex: &mut Explorer) -> ExecOutcome {
     } else {
         Subject::Bm(AtomicBitmap::new(h.pages, one))
     };
+    for p in &h.init {
+        subject.bm().set_bit(*p);
+    }
     let subject = Arc::new(subject);
     let outs: Arc<Mutex<Vec<(usize, usize, Out)>>> = Arc::new(Mutex::new(Vec::new()));
     // call / return events in execution order (one thread runs at a time under the scheduler,
@@ -249,6 +255,9 @@ fn execute(h: &Harness, ex: &mut Explorer) -> ExecOutcome {
     let final_set = bits(&final_words);
     let mut marked: BTreeMap<usize, usize> = BTreeMap::new();
     let mut reset: BTreeSet<usize> = BTreeSet::new();
+    for p in &h.init {
+        *marked.entry(*p).or_insert(0) += 1;
+    }
     for ops in &h.threads {
         for op in ops {
             for p in op.marks() {
@@ -440,6 +449,14 @@ fn harnesses(tier: Tier) -> Vec<Harness> {
         pages: 130,
         threads,
         bound,
+        init: vec![],
+    };
+    let hi = |name: &str, init: Vec<usize>, threads: Vec<Vec<Op>>, bound: Option<u32>| Harness {
+        name: name.to_string(),
+        pages: 130,
+        threads,
+        bound,
+        init,
     };
     let mut v = vec![
         h("two-markers-same-word", vec![vec![SetBit(3)], vec![SetBit(5)]], None),
@@ -466,6 +483,14 @@ fn harnesses(tier: Tier) -> Vec<Harness> {
     v.push(h("reset-range-vs-mark-vs-harvest", vec![vec![ResetRange(62, 3)], vec![SetBit(63), SetBit(66)], vec![Harvest]], None));
     v.push(h("nested-slice-mark-vs-reset-bit", vec![vec![SliceMark(32, 31, 3)], vec![ResetBit(64), SetBit(64)]], None));
     v.push(h("clone-vs-reset-vs-mark", vec![vec![Clone], vec![ResetBit(5)], vec![SetBit(5), SetBit(6)]], None));
+    // words that are already dirty when the race starts (a harvest of a clean word may take a
+    // shortcut that a harvest of a dirty one cannot)
+    v.push(hi("premarked-word-harvest-vs-mark", vec![3], vec![vec![Harvest], vec![SetBit(7)]], None));
+    v.push(hi("premarked-word-harvest-vs-mark-range", vec![62, 70], vec![vec![Harvest], vec![SetRange(63, 2)]], None));
+    v.push(hi("premarked-word-harvest-vs-two-marks", vec![3], vec![vec![Harvest], vec![SetBit(7), SetBit(3)]], None));
+    v.push(hi("premarked-word-reset-range-vs-mark", vec![10], vec![vec![ResetRange(10, 1)], vec![SetBit(12)]], None));
+    v.push(hi("premarked-word-reset-bit-vs-mark", vec![10], vec![vec![ResetBit(10)], vec![SetRange(12, 1)]], None));
+    v.push(hi("premarked-two-words-harvest-vs-guest-write", vec![1, 65], vec![vec![Harvest], vec![RegionWrite(63, 2)]], None));
     // the same page marked again after a fetch-and-clear (histories on one page)
     v.push(h("remark-vs-harvest", vec![vec![SetRange(70, 1), SetRange(70, 1)], vec![Harvest]], None));
     v.push(h("remark-set-bit-vs-harvest", vec![vec![SetBit(70), SetBit(70)], vec![Harvest]], None));
@@ -530,7 +555,16 @@ fn run_harness(ctx: &Ctx, h: &Harness, workers: usize) {
     let outcomes: Mutex<BTreeSet<String>> = Mutex::new(BTreeSet::new());
     let steps_seen: Mutex<BTreeSet<Vec<usize>>> = Mutex::new(BTreeSet::new());
     let first_sample: Mutex<Option<Value>> = Mutex::new(None);
+    // budget: a change to the code under test can multiply the atomic steps of an operation and
+    // with it the number of schedules; the harness then stops at the cap and says so
+    let cap: u64 = if std::env::var("VERIF_TIER").map_or(false, |t| t == "thorough") { 30_000_000 } else { 300_000 };
+    let done = std::sync::atomic::AtomicU64::new(0);
+    let capped = std::sync::atomic::AtomicBool::new(false);
     let body = |ex: &mut Explorer| -> bool {
+        if done.fetch_add(1, std::sync::atomic::Ordering::Relaxed) >= cap {
+            capped.store(true, std::sync::atomic::Ordering::Relaxed);
+            return false;
+        }
         let oc = execute(h, ex);
         if let Some(m) = oc.machinery {
             ctx.machinery(&format!("harness {}: {}", h.name, m));
@@ -574,6 +608,11 @@ fn run_harness(ctx: &Ctx, h: &Harness, workers: usize) {
         "distinct_outcomes": outcomes.len(),
         "stopped_at_first_violation": stats.stopped_early,
     });
+    let capped = capped.load(std::sync::atomic::Ordering::Relaxed);
+    if capped {
+        info["capped_at_schedules"] = json!(cap);
+        println!("NOTE: C08 harness {} stopped at the budget of {} schedules (not exhaustive for this harness)", h.name, cap);
+    }
     if h.bound.is_none() && !stats.stopped_early && steps_seen.len() == 1 {
         let counts = steps_seen.iter().next().unwrap().clone();
         let expect = multinomial(&counts);
